@@ -24,7 +24,7 @@ def have(spec):
 def histories(ctx, b, bn, hist, steps):
     def one(typ):
         tr = os.path.join(ctx.work, "objtrace-%s-%s.ndjson" % (typ, bn))
-        summ = ctx.record(b, "dsp-objects", tr, ["types=" + typ, "hist=%d" % hist, "steps=%d" % steps, "maxn=512"],
+        summ = ctx.record(b, "dsp-objects", tr, ["types=" + typ, "hist=%d" % hist, "steps=%d" % steps, "maxn=512", "salt=" + bn],
                           name="R3 record %s histories [%s]" % (typ, bn))
         ok, st = ctx.validate("dsp/FourierObjTrace.tla", "dsp/FourierObjTrace.cfg", tr,
                               name="R3 validate %s histories [%s]" % (typ, bn))
@@ -41,6 +41,37 @@ def histories(ctx, b, bn, hist, steps):
                 ctx.violation("dsp:history-rejected:%s:%s" % (typ, bn), st.get("detail", "")[:700],
                               {"trace": dst, "type": typ, "build": bn, "spec": "dsp/FourierObjTrace.tla"})
     ctx.parallel([lambda t=t: one(t) for t in TYPES], width=5)
+
+
+ALLK = ["C.coef", "C.seq", "FFT.coef", "FFT.seq", "DCT.t", "DST.t", "QW.cosc", "QW.coss", "QW.sinc", "QW.sins"]
+RADK = ["R2.coef", "R2.seq", "R4.coef", "R4.seq"]
+
+
+def tlaset(xs):
+    return "{" + ",".join('"%s"' % x if isinstance(x, str) else str(x) for x in xs) + "}"
+
+
+def exact_stages(ctx, bins, builds, th):
+    """(name, kinds, nlo, nhi, fams): family 0 = all exactly computable impulse positions at once (+ the dense
+    inverse case), 1..4 = single positions, 5,6 = seed-chosen impulse position with masked outputs, 7,8 = dense
+    data for n <= 4."""
+    allf = list(range(9))
+    shards = []
+    # every length up to 512, cost grows with n: ranges of about equal total length
+    for lo, hi in ((1, 256), (257, 362), (363, 443), (444, 512)):
+        shards.append(("all kinds n=%d..%d fam %s" % (lo, hi, "0-8" if th else "0"), ALLK, lo, hi, allf if th else [0]))
+    if not th:
+        shards.append(("all kinds n=1..40 fam 1-8", ALLK, 1, 40, allf[1:]))
+        w = 41 + (ctx.seed * 53) % 440          # a seed-chosen window of lengths gets the other families too
+        shards.append(("all kinds n=%d..%d fam 1-6 (seed window)" % (w, w + 23), ALLK, w, w + 23, [1, 2, 3, 4, 5, 6]))
+    shards.append(("radix-2/4 n=1..%d" % (4096 if th else 1024), RADK, 1, 4096 if th else 1024, allf))
+
+    def one(name, kinds, lo, hi, fams):
+        cases = ctx.gen("dsp/ExactDft.tla", "dsp/ExactDft.cfg", name="R1+R2 gen exact sums " + name, timeout=1700,
+                        subst=dict(KINDS=tlaset(kinds), NLO=lo, NHI=hi, SEED=ctx.seed, FAMS=tlaset(fams), EMIT="TRUE"))
+        for bn, _ in builds:
+            ctx.replay(bins[bn], "dsp-exact", cases, [], name="R2 replay exact sums %s [%s]" % (name, bn))
+    ctx.parallel([lambda a=a: one(*a) for a in shards], width=4)
 
 
 def run(ctx):
@@ -62,6 +93,16 @@ def run(ctx):
     # ---- R3: object histories ---------------------------------------------
     for bn, _ in builds:
         histories(ctx, bins[bn], bn, 40 if th else 10, 50)
+
+    # ---- R1+R2: index helpers ----------------------------------------------
+    nhi = 1100 if th else 600
+    idx = ctx.gen("dsp/FftIndex.tla", "dsp/FftIndex.cfg", name="R1+R2 gen index helpers n<=%d" % nhi,
+                  subst=dict(NLO=0, NHI=nhi, RANKMAX=48 if th else 32, EMIT="TRUE"))
+    for bn, _ in builds:
+        ctx.replay(bins[bn], "dsp-index", idx, [], name="R2 replay index helpers [%s]" % bn)
+
+    # ---- R1+R2: exact defining sums ----------------------------------------
+    exact_stages(ctx, bins, builds, th)
 
     ctx.assumptions += [
         "TLC/SANY and the CommunityModules Json module are trusted",
